@@ -145,6 +145,8 @@ def _run_schedule(case: dict, schedule: list, res: Result) -> None:
     writes: dict[str, list[dict]] = {}
     now_ns = 0
     crashes = 0
+    max_synced = [0]
+    policy = cfg["wal"]["policy"]["kind"]
     sync_during_flush = [False]  # sticky: the L0 order it leaves behind survives crashes
     base_path = int(round((cfg["wal"]["write_latency"] + cfg["wal"]["sync_latency"] + 1e-5) * 1e9))
 
@@ -201,6 +203,7 @@ def _run_schedule(case: dict, schedule: list, res: Result) -> None:
         sampler = Sampler(store, cfg)
         sampler.hist = hist
         sampler._hist_seen = len(hist.recs)
+        sampler.watch_wal(wal)
         sampler.now_ns = base_ns
         sim.control.on_event(sampler.on_event)
         k = schedule[e]
@@ -239,12 +242,14 @@ def _run_schedule(case: dict, schedule: list, res: Result) -> None:
                 clause, adm, sup = judge(r, writes.get(r["key"], []))
                 if clause:
                     report(r, r["key"], clause, adm, sup, sweep=False)
-        synced = wal.synced_up_to
+        sampler.observe_wal(crash_ns, "at-crash")
+        max_synced[0] = max(max_synced[0], sampler.max_synced)
+        synced = max_synced[0]  # highest watermark ever observed, never the value read at crash time
         if wal.stats.writes > synced:
             res.count("crashes_with_unsynced_entries")
         for r in hist.recs:
             if r["op"] in ("put", "delete"):
-                r["durable"] = r["seq"] <= synced
+                r["durable"] = r["seq"] <= synced or (policy == "every" and r["t1"] is not None and not r.get("sync"))
                 res.count("durable_ops_at_crash" if r["durable"] else "non_durable_ops_at_crash")
         del sim, clients, drive
         gc.collect()  # closes the abandoned generators (their finally blocks run now, not at a random later time)
@@ -255,6 +260,19 @@ def _run_schedule(case: dict, schedule: list, res: Result) -> None:
         lost = store.crash()
         store.recover_from_crash()
         crashes += 1
+        sampler.observe_wal(crash_ns, "across-crash-and-recovery")
+        res.count("watermark_observations", sampler.events + 2)
+        for d in sampler.synced_decreases[:1]:
+            where = d["where"]
+            if where == "after-delivery":
+                where = "in-a-delivery-that-installed-a-flush" if d["t"] in sampler.flushes else "in-a-delivery-without-flush-install"
+            res.add(
+                "durable-watermark-decreased",
+                "WriteAheadLog",
+                where,
+                f"epoch {e}: wal.synced_up_to went from {d['from']} to {d['to']} at t={d['t']}ns ({d['where']})",
+                {"schedule": schedule, "decreases": sampler.synced_decreases[:5]},
+            )
         nothing_volatile = not writes_open and lost["memtable_entries_lost"] == 0 and lost["immutable_memtable_entries_lost"] == 0
         res.count("crash_points_checked")
         now_ns = crash_ns + RESTART_GAP_NS
